@@ -1299,6 +1299,10 @@ impl Exec {
                 self.viol("C03", "valid_heaviest_chain_not_attached", format!("#{best_b} td {best_td} vs tip td {td}"));
                 self.viol("C06", "valid_heaviest_chain_not_attached", format!("#{best_b} td {best_td} vs tip td {td}"));
                 self.viol("C19", "valid_heaviest_chain_not_attached", format!("#{best_b} td {best_td} vs tip td {td}"));
+                // C07: the model's blocks carry the epoch / target of the exact RFC 0020 evaluation;
+                // a refusal (e.g. TargetMismatch) means the node computed something else
+                let first_err = self.node.verdicts.lock().unwrap().iter().find_map(|(h, v)| v.as_ref().err().map(|e| (self.w.by_hash.get(h).cloned(), e.clone())));
+                self.viol("C07", "model_built_block_refused", format!("#{best_b} td {best_td} vs tip td {td}; first refusal: {:?}", first_err));
             }
         }
         if td == best_td && n_best == 1 && tip != self.w.blocks[best_b].view.hash() {
